@@ -242,7 +242,26 @@ func c18GenHist(w *mon.Worker, idx int) c18HistCase {
 	if w.Tier == "thorough" {
 		n = 160
 	}
-	for i := 0; i < n; i++ {
+	if r.IntN(3) == 0 {
+		// the first thing an eval-all decoder of this history sees is an input without a document
+		// (comment-only / empty file), the next thing an ordinary one
+		var noDoc, plain []int
+		for _, e := range c18Pool {
+			if !e.All || e.In != "yaml" {
+				continue
+			}
+			last := e.Files[len(e.Files)-1]
+			if last == "d_cmt.yaml" || last == "d_empty.yaml" {
+				noDoc = append(noDoc, e.ID)
+			} else if e.Files[0] != "d_cmt.yaml" && e.Files[0] != "d_empty.yaml" {
+				plain = append(plain, e.ID)
+			}
+		}
+		if len(noDoc) > 0 && len(plain) > 0 {
+			c.Steps = append(c.Steps, c18Step{Entry: noDoc[r.IntN(len(noDoc))]}, c18Step{Entry: plain[r.IntN(len(plain))]})
+		}
+	}
+	for i := len(c.Steps); i < n; i++ {
 		st := c18Step{Entry: ids[r.IntN(len(ids))]}
 		if i > 0 && r.IntN(4) == 0 {
 			// same expression again on another document / output format: the kept tree is evaluated again
@@ -316,6 +335,8 @@ func c18RunHistory(w *mon.Worker, idx int) mon.Result {
 				note("C18-envsubst-optype-mutation", fmt.Sprintf("step %d `%s`: fresh process says %q, after this history %q", i, e.Expr, strings.TrimSpace(ref.Stderr), got.Err))
 			} else if c18ExplainedByStaleFinished(w, e, got, c.Unwrap) {
 				note("C18-decoder-init-keeps-finished", fmt.Sprintf("step %d `%s` -p=%s: alone %s, with a re-used decoder %s (= the -n answer)", i, e.Expr, e.In, ref, got))
+			} else if c18ExplainedByFirstFileFlag(e, got) {
+				note("C18-eval-all-yaml-decoder-remembers-first-file", fmt.Sprintf("step %d `%s` files=%v: alone %s, with a re-used eval-all decoder %s", i, e.Expr, e.Files, ref, got))
 			} else {
 				return fail(i, fmt.Sprintf("step %d of the sequence gives a different answer than the same evaluation alone in a fresh process\n  entry: %s -p=%s -o=%s files=%v eval_all=%v (shared: %+v, fresh parse: %v)\n  alone (real binary): %s\n  in sequence:         %s",
 					i, e.Expr, e.In, e.Out, e.Files, e.All, sh, st.Fresh, ref, got))
@@ -722,6 +743,10 @@ func c18RunSchedules(w *mon.Worker, idx int) mon.Result {
 			}
 			if c18ExplainedByStaleFinished(w, e, ev.Out, c.Unwrap) {
 				note("C18-decoder-init-keeps-finished", fmt.Sprintf("`%s` -p=%s: alone %s, with a re-used decoder %s (= the -n answer)", e.Expr, e.In, ref, ev.Out))
+				continue
+			}
+			if c18ExplainedByFirstFileFlag(e, ev.Out) {
+				note("C18-eval-all-yaml-decoder-remembers-first-file", fmt.Sprintf("`%s` files=%v: alone %s, with a re-used eval-all decoder %s", e.Expr, e.Files, ref, ev.Out))
 				continue
 			}
 			if c.Mode == "load" && e.Load != "" && e.Load != "str" {
